@@ -341,6 +341,51 @@ func c11Tamper(r *kernel.Run, s C11Spec, w *World, key *kernel.Key, ra *kernel.R
 		t2 := kernel.Set(kernel.Clone(tree), kernel.Path{"0", "nonrev_proof", "sacc"}, kernel.MustDecode(mustJSON(sa)))
 		deliver(fmt.Sprintf("substitute-accumulator:%d", i), "substitute-accumulator", kernel.Encode(t2))
 	}
+	// Byzantine holder who also controls ANOTHER issuer X with the same key counter: it makes up an
+	// accumulator nu = u^e mod n for its own (possibly revoked) value e, has X sign it, lets the verifier
+	// see that signed accumulator once under X's key (a verifier serving several issuers), and then
+	// presents its credential of THIS issuer against it
+	if wanted(s.OnlyFault, "byzantine:accumulator-signed-by-other-issuer") {
+		var other *kernel.Key
+		for _, n := range kernel.KeyNames(0) {
+			if k := kernel.GetKey(n); k.Name != key.Name && k.Pk.Counter == pk.Counter && k.Pk.N.Cmp(pk.N) != 0 {
+				other = k
+				break
+			}
+		}
+		if other != nil {
+			r.Fault("byzantine-holder")
+			hc := creds[ci]
+			e := hc.Led.Witness
+			u := new(big.Int).Exp(randBits(w.hr, 200), big.NewInt(2), pk.N)
+			fakeAcc := &revocation.Accumulator{Nu: new(big.Int).Exp(u, e, pk.N), Index: uint64(ra.Head()) + 1, Time: 946684800 + 86400, EventHash: ra.Accs[ra.Head()].EventHash}
+			sacc, err := fakeAcc.Sign(other.Sk)
+			if err == nil {
+				// the verifier has seen this signed accumulator under X's key
+				seen := &revocation.SignedAccumulator{Data: sacc.Data, PKCounter: sacc.PKCounter}
+				if _, err := seen.UnmarshalVerify(other.Pk); err != nil {
+					panic(err)
+				}
+				bc := &gabi.Credential{}
+				mustUnmarshal(mustJSON(hc.Cred), bc)
+				bc.Pk = pk
+				bc.NonRevocationWitness = &revocation.Witness{U: u, E: e, SignedAccumulator: sacc}
+				var pd *gabi.ProofD
+				if p := guard(func() { pd, err = bc.CreateDisclosureProof(nil, nil, true, sess.Context, sess.Nonce) }); p == "" && err == nil {
+					r.Eval(1)
+					v := verifyWire(mustJSON(gabi.ProofList{pd}), sess)
+					if v.Accepted {
+						r.Violate("C11:accepted-with-unauthentic-accumulator", map[string]any{"fault": "byzantine:accumulator-signed-by-other-issuer"},
+							"a non-revocation proof against an accumulator made up by the holder and signed by another issuer (%s, same key counter) was accepted under %s", other.Name, key.Name)
+					} else {
+						r.Probe("foreign-signed-accumulator-rejected")
+					}
+				} else {
+					r.Probe("byzantine-prover-refused")
+				}
+			}
+		}
+	}
 	// Byzantine holder: degenerate witness element u = 0 (or a multiple of n) paired with the newest
 	// accumulator through a prepared commitment: C_u becomes 0 and with it every power of C_u
 	for di, deg := range []*big.Int{big.NewInt(0), new(big.Int).Set(pk.N), new(big.Int).Lsh(pk.N, 1)} {
